@@ -146,6 +146,16 @@ func (in *interp) exec(s stmt) flow {
 	case sContinue:
 		return flContinue
 	case sReturn:
+		if n := len(in.callKinds); n == 0 {
+			uncon("return outside a function or subroutine")
+		} else if in.callKinds[n-1] == 's' {
+			if t.e != nil {
+				uncon("return with a value in a subroutine")
+			}
+			in.tag("return-in-subroutine")
+		} else if t.e == nil {
+			uncon("bare return in a function (rejected at parse time; not documented)")
+		}
 		if t.e != nil {
 			in.retVal = in.eval(t.e).deepCopy()
 		} else {
@@ -382,6 +392,9 @@ func (in *interp) assign(t sAssign) {
 		in.checkLoopShadow(name)
 		typ := t.typ
 		if err := in.st.define(name, typ, rhs); err != nil {
+			if in.depth > 0 {
+				in.tag("in-function-body")
+			}
 			if in.curFrame().find(name) != nil {
 				in.hit("sem:redeclaration-in-same-scope-fatal")
 			} else {
@@ -422,6 +435,9 @@ func (in *interp) store(l expr, v val) {
 			in.hit("sem:assignment-creates-local")
 		}
 		if err := in.st.set(t.name, v); err != nil {
+			if in.depth > 0 {
+				in.tag("in-function-body")
+			}
 			fatal("%v", err)
 		}
 	case eField:
@@ -447,6 +463,9 @@ func (in *interp) store(l expr, v val) {
 		if v.k != kStr {
 			uncon("field renamed to a %s", v.kindName())
 		}
+		if n.i < 0 {
+			uncon("negative positional index (the text says absent/no-op, the implementation aliases from the end)")
+		}
 		if n.i >= 1 && n.i <= int64(len(in.rec.e)) {
 			for i, e := range in.rec.e {
 				if e.k == v.s && int64(i) != n.i-1 {
@@ -463,6 +482,9 @@ func (in *interp) store(l expr, v val) {
 		n := in.eval(t.e)
 		if n.k != kInt {
 			uncon("$[[[...]]] with a %s index", n.kindName())
+		}
+		if n.i < 0 {
+			uncon("negative positional index (the text says absent/no-op, the implementation aliases from the end)")
 		}
 		if n.i >= 1 && n.i <= int64(len(in.rec.e)) {
 			in.hit("sem:positional-value-assign")
